@@ -7,7 +7,7 @@ def ordS : Ordering → String
   | .lt => "lt" | .eq => "eq" | .gt => "gt"
 
 /-- `cmp Va Vb` → `ok <==> <same hasher writes> <cmp> <partial_cmp>` -/
-def handle (ts : List String) : String :=
+def cmpReq (ts : List String) : String :=
   match pVal ts with
   | none => "bad-request"
   | some (a, ts) =>
@@ -20,5 +20,10 @@ def handle (ts : List String) : String :=
         | none => "none"
         | some o => ordS o
       s!"ok {e} {h} {ordS (Val.cmp a b)} {p}"
+
+def handle (ts : List String) : String :=
+  match ts with
+  | cmd :: rest => if cmd = "cmp" then cmpReq rest else "bad-request"
+  | [] => "bad-request"
 
 end Hs.Drv.C12
